@@ -123,10 +123,12 @@ def explore_random_state(spec, i, acc):
 
 def run_shard(spec, acc):
     runner.quiet()
+    import os
+    os.environ['VERIF_TIER_HINT'] = spec['tier']
     cs = combos(spec['seed'])
     shard, n = spec['shard'], spec['nshards']
     mine = cs[shard::n]
-    count = 3 if spec['tier'] == 'quick' else 14
+    count = 3 if spec['tier'] == 'quick' else 24
     for c in mine[:count]:
         try:
             explore_combo(c, acc)
@@ -135,7 +137,7 @@ def run_shard(spec, acc):
             acc.notes.append('%r: %s: %s' % (c, type(err).__name__,
                                              str(err)[:300]))
     if spec['tier'] == 'thorough':
-        for i in range(8):
+        for i in range(16):
             try:
                 explore_random_state(spec, i, acc)
             except Exception as err:
